@@ -82,6 +82,11 @@ CHECKS = {
             "Every placement of Is(), f-strings and inner snapshot() among managed slots, for every observed length change and approved set, is rewritten by the real code; the unmanaged source segments (located with ast, not asttokens) must survive verbatim as a subsequence, inner snapshots change only through their own approved change, starred containers survive verbatim, managed siblings are repaired.",
             "dirty-equals absent; inner snapshots are compared positionally by the container (scope note in DESIGN.md C10).",
             "DESIGN.md 5/C10"),
+    "C09": ("model_checking",
+            "explicit state graph per program: all |P|! orders of single-category sessions (shared prefixes executed once) plus the joint session; terminal states compared by syntax tree; programs enumerated from slot assignments over five container shapes and separate call sites",
+            "For every enumerated program with >= 2 pending categories all approval orders are executed as real sessions and must converge to one syntax tree (confluence checked exhaustively per program, not sampled).",
+            "<= 3 slots per container; observations recorded instead of asserted (DESIGN.md C09 scope); 12 (quick) / 80 (thorough) programs also through real pytest sessions.",
+            "DESIGN.md 5/C09"),
 }
 
 NOT_APPLICABLE = {
